@@ -125,6 +125,13 @@ CONFIGS = [
 ]
 
 
+# the API defines GetIamPolicy itself (the IAM mixins yield) while the Operations and Locations mixins are configured too: those stay
+CONFIGS.append((["google.longrunning.Operations", "google.iam.v1.IAMPolicy", "google.cloud.location.Locations"],
+                ["google.iam.v1.IAMPolicy.GetIamPolicy", "google.longrunning.Operations.GetOperation", "google.longrunning.Operations.CancelOperation",
+                 "google.cloud.location.Locations.GetLocation"], "GetIamPolicy", "", False))
+# rules for services that merely share the short name of a mixin service select nothing
+CONFIGS.append((["google.longrunning.Operations", "google.iam.v1.IAMPolicy"],
+                ["google.longrunning.Operations.CancelOperation", "acme.other.v1.Operations.GetOperation", "other.iam.v9.IAMPolicy.SetIamPolicy"], None, "", False))
 # every single-rule and every all-but-one-rule subset of each mixin service (exposure on both clients only): a block of one RPC guarded by the
 # switch of another shows up exactly in these
 for _s, _ms in SERVICES.items():
